@@ -684,20 +684,24 @@ func appInputX(r *ref.SplitMix64, i int) (in []byte, frames []byte, known bool) 
 			n := r.Range(2, 70)
 			body := make([]byte, n)
 			switch r.Intn(4) {
-			case 0: // counted strings: a count byte, that many letters, again
-				p := 3 + r.Intn(2)
-				for p < n {
+			case 0: // counted strings (a count byte, that many letters) with a one-byte ID after the first, cut at a boundary between any two of these
+				body = []byte{0, 0, byte(r.Intn(256))}
+				bounds := []int{3}
+				for s := r.Range(1, 6); s > 0; s-- {
 					cnt := r.Intn(12)
-					body[p] = byte(cnt)
-					p++
-					for q := 0; q < cnt && p < n; q++ {
-						body[p] = "TRM59800.00 SCIS"[q%16]
-						p++
+					body = append(body, byte(cnt))
+					bounds = append(bounds, len(body))
+					for q := 0; q < cnt; q++ {
+						body = append(body, "TRM59800.00 SCIS"[q%16])
 					}
-					if r.Chance(1, 4) {
-						body = body[:p]
-						break
+					bounds = append(bounds, len(body))
+					if len(bounds) == 3 {
+						body = append(body, byte(r.Intn(4))) // the setup ID
+						bounds = append(bounds, len(body))
 					}
+				}
+				if r.Chance(2, 3) {
+					body = body[:bounds[r.Intn(len(bounds))]]
 				}
 			case 1:
 				copy(body, r.Bytes(n))
